@@ -13,6 +13,19 @@ for l in open(os.path.join(root, 'properties.jsonl')):
         p = r
 wt = "/tmp/wt/%s%s" % (pid, variant)
 files = ", ".join(p['anchors'].get('files', []))
+hints = {
+    "a": "the most subtle boundary-value or arithmetic one",
+    "b": "one that needs a multi-step history, an unusual ordering, or a rarely used input feature to show up, and that is located in a different function than the most obvious candidate",
+    "c": "one in an error-handling, clean-up, shutdown or retry path, or in a helper the anchored code relies on (a different file than the obvious one if possible), that needs a fault, a cancellation or a rare combination of options at a particular moment to show up",
+    "d": "one that only shows with larger or unusual inputs (more items than usual, deeper nesting, repeated or empty elements, values near a limit) or that needs two features to be used together",
+}
+hint = hints.get(variant[0], hints["b"])
+tried = ""
+tf = os.path.join(root, 'seeded', 'tried.json')
+if os.path.exists(tf):
+    t = json.load(open(tf)).get(pid, [])
+    if t:
+        tried = "\nIdeas that were already used and must NOT be repeated (pick something else, in a different function): " + "; ".join(t) + "."
 print(f"""You are working on a scratch git worktree of the Go repository ipfs/go-graphsync at {wt} (your own private copy; work ONLY inside {wt}; never touch /repo or /verif, never read anything under /verif).
 
 Shell environment for every command (no network is available, nothing can be downloaded):
@@ -30,7 +43,7 @@ Your task: produce ONE realistic change to the non-test source code of go-graphs
   (1) the repository still compiles,
   (2) the ENTIRE existing test suite still passes unedited (run it; if a test fails, pick a different change), and
   (3) the breakage needs something specific to manifest — a particular interleaving, a fault at a particular point, a multi-step sequence of operations, an unusual/boundary input, or two cooperating sites that each look fine alone — NOT something that ordinary use would expose at once.
-Variant hint: this is variant "{variant}"; if you can think of several candidate changes, prefer {"the most subtle boundary-value or arithmetic one" if variant == "a" else "one that needs a multi-step history, an unusual ordering, or a rarely used input feature to show up, and that is located in a different function than the most obvious candidate"}.
+Variant hint: this is variant "{variant}"; if you can think of several candidate changes, prefer {hint}.{tried}
 Do not change test files, do not change exported API signatures, do not add build tags. Keep the change small (ideally < 15 changed lines, in one or two files).
 
 Also write a demonstration: a NEW Go test file (name it zz_seed_demo_test.go in the relevant package directory) that FAILS with your change and PASSES on the unchanged code. Verify both: run it with your change applied (must fail); then save the source change with `git diff > {wt}/seed.patch` (source files only, the untracked demo test is not in it), undo it with `git apply -R {wt}/seed.patch`, run the demo again (must pass), then re-apply with `git apply {wt}/seed.patch`. Do NOT use `git stash`, `git commit`, `git checkout` of branches or any other command that touches shared repository state (other worktrees share it).
